@@ -29,6 +29,10 @@ type decodeLine struct {
 	Patch  json.RawMessage `json:"patch"`
 	Accept bool            `json:"accept"`
 	Acc    []accessor      `json:"acc"`
+	Texts  []struct {
+		W      []int `json:"w"`
+		Accept bool  `json:"accept"`
+	} `json:"texts"`
 }
 
 // fromGo projects a Go dynamic value (as returned by ValueInterface) to an abstract value.
@@ -194,6 +198,36 @@ func (e *engine) checkDecodeLine(worker int, raw []byte) error {
 		}
 		// an accepted patch can be applied without panicking (this is why the boundary matters)
 		e.probeApply(worker, p, viol, hang)
+	}
+	// byte-level neighbours of the text (trailing data, a second value, a truncation, white space)
+	if lib.Dialect == "v5" {
+		for _, tm := range ln.Texts {
+			text := make([]byte, len(tm.W))
+			for i, c := range tm.W {
+				text[i] = byte(c)
+			}
+			var p lib.Patch
+			var derr error
+			mk := func(kind, detail string) *lib.Violation {
+				return &lib.Violation{Property: e.prop, Kind: kind, Detail: detail,
+					Sig:  map[string]string{"fam": "decode", "kind": kind, "lab": "", "lastop": ""},
+					Case: map[string]interface{}{"fam": "decode", "patch_text": string(text), "spec_accept": tm.Accept, "err": errString(derr), "line": ln}}
+			}
+			pan := e.wd.Guard(worker, func() *lib.Violation { return mk("hang", "") }, func() { p, derr = lib.DecodePatch(text) })
+			e.rep.Count("executions", 1)
+			e.rep.Label(fmt.Sprintf("DecodeText_%v", tm.Accept))
+			if pan != "" {
+				e.rep.Report(mk("panic", "DecodePatch panicked: "+firstLine(pan)))
+			} else if (derr == nil) != tm.Accept {
+				if tm.Accept {
+					e.rep.Report(mk("reject", "a well-formed RFC 6902 patch document was rejected: "+derr.Error()))
+				} else {
+					e.rep.Report(mk("accept", "a text that is not a well-formed RFC 6902 patch document (trailing data / truncation) was accepted"))
+				}
+			} else if derr != nil && p != nil {
+				e.rep.Report(mk("patch-on-error", "DecodePatch returned an error together with a non-nil Patch"))
+			}
+		}
 	}
 	e.rep.Nontrivial(string(ln.Patch))
 	if !ln.Accept || len(ln.Acc) == 2 {
